@@ -237,9 +237,9 @@ def main():
     jobs = []
     if TIER == 'thorough':
         plan = [('cpl', 3, 16, False, True), ('cpl', 2, 8, False), ('ctl', 2, 4, False), ('cpl_obl', 2, 4, False), ('ctl_obl', 1, 1, False), ('cpl_sync', 2, 4, False), ('layered', 2, 8, False), ('dual_cpl', 2, 6, False), ('dual_layered', 2, 10, False), ('layered_sync', 2, 6, False), ('ctl_sync', 2, 3, False),
-                ('cpl', 2, 4, True), ('layered', 1, 1, True), ('dual_cpl', 1, 1, True)]
+                ('cpl', 2, 4, True), ('layered', 1, 1, True), ('dual_cpl', 1, 1, True), ('ctl_sync', 2, 3, True), ('cpl_sync', 1, 1, True), ('layered_sync', 1, 1, True)]
     else:
-        plan = [('cpl', 2, 6, False), ('ctl', 1, 1, False), ('cpl_obl', 1, 1, False), ('cpl_sync', 1, 1, False), ('layered', 1, 2, False), ('dual_cpl', 1, 1, False), ('dual_layered', 1, 2, False), ('layered_sync', 1, 1, False), ('ctl_sync', 1, 1, False), ('cpl', 1, 1, True)]
+        plan = [('cpl', 2, 6, False), ('ctl', 1, 1, False), ('cpl_obl', 1, 1, False), ('cpl_sync', 1, 1, False), ('layered', 1, 2, False), ('dual_cpl', 1, 1, False), ('dual_layered', 1, 2, False), ('layered_sync', 1, 1, False), ('ctl_sync', 1, 1, False), ('cpl', 1, 1, True), ('ctl_sync', 1, 1, True), ('cpl_sync', 1, 1, True)]
     plan = [tuple(p) + (False,) * (5 - len(p)) for p in plan]
     for world, k, n, arrays, core in plan:
         for c in range(n):
